@@ -1,5 +1,7 @@
 package interp
 
+import "math"
+
 // Virtual time: time.Now reads the scheduler's clock; runtime timers are intrinsic
 // objects whose firing is a scheduling event.
 
@@ -13,4 +15,24 @@ func init() {
 		return tuple{base + ns/1e9, int32(ns % 1e9), int64(ns + 1)}
 	}
 	ext["time.runtimeNow"] = ext["time.now"]
+}
+
+func init() {
+	f1 := func(f func(float64) float64) externalFn {
+		return func(fr *frame, args []value) value {
+			x, ok := args[0].(float64)
+			if !ok {
+				panic(unsupported("floating point on a symbolic value"))
+			}
+			return f(x)
+		}
+	}
+	externals["math.Floor"] = f1(math.Floor)
+	externals["math.Ceil"] = f1(math.Ceil)
+	externals["math.Trunc"] = f1(math.Trunc)
+	externals["math.Round"] = f1(math.Round)
+	externals["math.archFloor"] = f1(math.Floor)
+	externals["math.archCeil"] = f1(math.Ceil)
+	externals["math.archTrunc"] = f1(math.Trunc)
+	externals["math.Pow"] = func(fr *frame, args []value) value { return math.Pow(args[0].(float64), args[1].(float64)) }
 }
